@@ -266,7 +266,8 @@ def run_impl(case):
         o = _outcome(lambda: TimeType.from_float(x, mode))
         if 'ret' in o:
             r = o['ret']
-            o['back'] = float(r) == x
+            back = _outcome(lambda: float(r) == x)
+            o['back'] = back.get('ret') is True
             o['ret'] = [int(r.numerator), int(r.denominator)]
         return o
     raise ValueError(k)
